@@ -85,6 +85,9 @@ def draw_cell(rng, field, fmt, bad_rate=0.15):
         if fmt == "fixed":
             pool = [cell for cell in pool if len(cell) <= field.get("width", FIELD_KINDS[field["type"]][1])] or [""]
         pool.append("")
+        if fmt != "fixed":
+            # cells consisting of white space only are ordinary non-empty cells outside fixed-width data
+            pool += [" ", "\t"]
         return rng.choice(pool)
     if field.get("empty") and roll < bad_rate + 0.1:
         return ""
